@@ -33,9 +33,9 @@ use vkit::vk::MatN;
 use vkit::*;
 
 /// Tolerance factor: |got - want| <= K2 * eps * cond.
-const K2: f64 = 32.0;
+pub(crate) const K2: f64 = 32.0;
 
-type M4<S> = [[S; 4]; 4];
+pub(crate) type M4<S> = [[S; 4]; 4];
 
 /// Ranges of the regimes per scalar domain.
 pub(crate) struct Lim {
@@ -213,10 +213,10 @@ macro_rules! lay_impl {
 lay_impl!(Rows, rm, "row-major");
 lay_impl!(Cols, cm, "col-major");
 
-const ORTHO: [&str; 4] = ["orthographic_lh_zo", "orthographic_lh_no", "orthographic_rh_zo", "orthographic_rh_no"];
-const FRUSTUM: [&str; 4] = ["frustum_lh_zo", "frustum_lh_no", "frustum_rh_zo", "frustum_rh_no"];
-const PERSP: [&str; 4] = ["perspective_lh_zo", "perspective_lh_no", "perspective_rh_zo", "perspective_rh_no"];
-const PERSP_FOV: [&str; 4] = ["perspective_fov_lh_zo", "perspective_fov_lh_no", "perspective_fov_rh_zo", "perspective_fov_rh_no"];
+pub(crate) const ORTHO: [&str; 4] = ["orthographic_lh_zo", "orthographic_lh_no", "orthographic_rh_zo", "orthographic_rh_no"];
+pub(crate) const FRUSTUM: [&str; 4] = ["frustum_lh_zo", "frustum_lh_no", "frustum_rh_zo", "frustum_rh_no"];
+pub(crate) const PERSP: [&str; 4] = ["perspective_lh_zo", "perspective_lh_no", "perspective_rh_zo", "perspective_rh_no"];
+pub(crate) const PERSP_FOV: [&str; 4] = ["perspective_fov_lh_zo", "perspective_fov_lh_no", "perspective_fov_rh_zo", "perspective_fov_rh_no"];
 const P_EQ_FRUSTUM: [&str; 4] = ["perspective_lh_zo = frustum_lh_zo(symmetric planes)", "perspective_lh_no = frustum_lh_no(symmetric planes)", "perspective_rh_zo = frustum_rh_zo(symmetric planes)", "perspective_rh_no = frustum_rh_no(symmetric planes)"];
 const PF_EQ_FRUSTUM: [&str; 4] = ["perspective_fov_lh_zo = frustum_lh_zo(symmetric planes)", "perspective_fov_lh_no = frustum_lh_no(symmetric planes)", "perspective_fov_rh_zo = frustum_rh_zo(symmetric planes)", "perspective_fov_rh_no = frustum_rh_no(symmetric planes)"];
 const PF_EQ_P: [&str; 4] = ["perspective_fov_lh_zo(w,h) = perspective_lh_zo(w/h)", "perspective_fov_lh_no(w,h) = perspective_lh_no(w/h)", "perspective_fov_rh_zo(w,h) = perspective_rh_zo(w/h)", "perspective_fov_rh_no(w,h) = perspective_rh_no(w/h)"];
@@ -224,10 +224,10 @@ const P_MIRROR: [&str; 2] = ["perspective_lh_zo = perspective_rh_zo * z-mirror",
 const PF_MIRROR: [&str; 2] = ["perspective_fov_lh_zo = perspective_fov_rh_zo * z-mirror", "perspective_fov_lh_no = perspective_fov_rh_no * z-mirror"];
 const INF: [&str; 2] = ["infinite_perspective_lh", "infinite_perspective_rh"];
 const TW_INF: [&str; 2] = ["tweaked_infinite_perspective_lh", "tweaked_infinite_perspective_rh"];
-fn is_lh(i: usize) -> bool {
+pub(crate) fn is_lh(i: usize) -> bool {
     i < 2
 }
-fn is_zo(i: usize) -> bool {
+pub(crate) fn is_zo(i: usize) -> bool {
     i % 2 == 0
 }
 
@@ -393,6 +393,11 @@ fn close<S: Dom>(cx: &mut Cx, got: S, want: S, cond: f64) -> bool {
 /// that is tiny relative to its floor (a translation of 1e-17 clip units, far/(far-near) for far << near) is not
 /// compared relative to itself.
 fn mat_rel<S: Dom>(cx: &mut Cx, what: &str, a: &M4<S>, b: &M4<S>, cond: [f64; 4], floor: [f64; 4]) -> CaseResult {
+    mat_rel_k(cx, what, a, b, K2, cond, floor)
+}
+
+/// `mat_rel` with the factor `k` in place of K2.
+pub(crate) fn mat_rel_k<S: Dom>(cx: &mut Cx, what: &str, a: &M4<S>, b: &M4<S>, k: f64, cond: [f64; 4], floor: [f64; 4]) -> CaseResult {
     for i in 0..4 {
         for j in 0..4 {
             cx.count();
@@ -403,7 +408,7 @@ fn mat_rel<S: Dom>(cx: &mut Cx, what: &str, a: &M4<S>, b: &M4<S>, cond: [f64; 4]
                 if x == y {
                     true
                 } else {
-                    let tol = K2 * S::eps() * cond[i].max(1.0) * x.abs().max(y.abs()).max(floor[j]);
+                    let tol = k * S::eps() * cond[i].max(1.0) * x.abs().max(y.abs()).max(floor[j]);
                     let d = (x - y).abs();
                     if d.is_finite() {
                         cx.note_err(d / tol);
@@ -412,14 +417,14 @@ fn mat_rel<S: Dom>(cx: &mut Cx, what: &str, a: &M4<S>, b: &M4<S>, cond: [f64; 4]
                 }
             };
             if !ok {
-                fail!("{}: entry ({},{}) {:?} vs {:?} (tolerance {} eps * cond {:.3e} relative to max(entry, floor {:.3e}));\n  left  {:?}\n  right {:?}", what, i, j, a[i][j], b[i][j], K2, cond[i], floor[j], a, b);
+                fail!("{}: entry ({},{}) {:?} vs {:?} (tolerance {} eps * cond {:.3e} relative to max(entry, floor {:.3e}));\n  left  {:?}\n  right {:?}", what, i, j, a[i][j], b[i][j], k, cond[i], floor[j], a, b);
             }
         }
     }
     Ok(())
 }
 
-fn col2_negated<S: Dom>(m: &M4<S>) -> M4<S> {
+pub(crate) fn col2_negated<S: Dom>(m: &M4<S>) -> M4<S> {
     let mut r = *m;
     for row in r.iter_mut() {
         row[2] = -row[2];
@@ -447,28 +452,28 @@ fn corner<S: Dom>(cx: &mut Cx, what: &str, m: &M4<S>, p: [S; 3], want: [S; 3], c
 }
 
 #[derive(Clone, Copy, Debug)]
-struct Planes<S> {
-    l: S,
-    r: S,
-    b: S,
-    t: S,
-    n: S,
-    f: S,
+pub(crate) struct Planes<S> {
+    pub(crate) l: S,
+    pub(crate) r: S,
+    pub(crate) b: S,
+    pub(crate) t: S,
+    pub(crate) n: S,
+    pub(crate) f: S,
 }
 impl<S: Dom> Planes<S> {
-    fn vek(&self) -> FrustumPlanes<S> {
+    pub(crate) fn vek(&self) -> FrustumPlanes<S> {
         FrustumPlanes { left: self.l, right: self.r, bottom: self.b, top: self.t, near: self.n, far: self.f }
     }
 }
 
 impl<S: Dom> Planes<S> {
     /// `mat_rel` floors of an orthographic matrix: clip coordinates are O(1), corners are (l|r, b|t, n|f, 1).
-    fn floor_ortho(&self) -> [f64; 4] {
+    pub(crate) fn floor_ortho(&self) -> [f64; 4] {
         let mx = |a: S, b: S| a.f().abs().max(b.f().abs());
         [1.0 / mx(self.l, self.r), 1.0 / mx(self.b, self.t), 1.0 / mx(self.n, self.f), 1.0]
     }
     /// `mat_rel` floors of a perspective matrix: corners are (x d/n, y d/n, +-d, 1) with clip coordinates O(d).
-    fn floor_persp(&self) -> [f64; 4] {
+    pub(crate) fn floor_persp(&self) -> [f64; 4] {
         let mx = |a: S, b: S| a.f().abs().max(b.f().abs());
         let n = self.n.f().abs();
         [n / mx(self.l, self.r), n / mx(self.b, self.t), 1.0, n.min(self.f.f().abs())]
